@@ -38,6 +38,17 @@ func runAB(r *verifsim.Run) {
 		}
 	}
 	sc.Plans = [3]zz.FaultPlan{}
+	if r.Chance(1, 4) {
+		// storage failures behind the throttle: stop (final rename) and start (file creation) errors
+		for i, k := 0, r.Range(1, 4); i < k; i++ {
+			if r.Chance(2, 3) {
+				sc.Plans[zz.SinkMotion].Add('X', r.Draw(8))
+			} else {
+				sc.Plans[zz.SinkMotion].Add('S', r.Draw(8))
+			}
+		}
+	}
+	faulty := len(sc.Plans[zz.SinkMotion].Fail) > 0
 	period := time.Second / time.Duration(c.Fps)
 	for i := range sc.Ev {
 		e := &sc.Ev[i]
@@ -153,6 +164,7 @@ func runAB(r *verifsim.Run) {
 	recs, bad := tr.Protocol(zz.SinkMotion)
 	if bad != "" {
 		r.Violate("C06", "C06.pairing", "composed:"+stripAt(bad), "storage behind the throttle saw %s (calls: %s)", bad, tr.CallString(zz.SinkMotion, 0, len(tr.Ev)))
+		r.Violate("C12", "C12.protocol", "throttled:"+stripAt(bad), "storage behind the throttle saw %s after storage failures (calls: %s)", bad, tr.CallString(zz.SinkMotion, 0, len(tr.Ev)))
 	} else {
 		for k, rc := range recs {
 			if rc.StopEv < 0 {
@@ -195,6 +207,9 @@ func runAB(r *verifsim.Run) {
 	// ---- C04 at the processor level: RecordingStarted iff the conjuncts hold (create always OK here)
 	open, run := false, 0
 	for i := range tr.Ev {
+		if faulty {
+			break // with injected file-creation failures "create OK" no longer holds: the rule is evaluated in the fault-free stratum
+		}
 		e := &tr.Ev[i]
 		if e.Kind == 'F' && e.Ord >= 0 {
 			if e.Motion {
